@@ -272,7 +272,8 @@ def pred_c01(ops, impl):
         else:
             # anything else (store, block, init-bal, app switch …) may legitimately change the storage
             last_hash, pending = None, None
-    return None
+    import pred_wasm2
+    return pred_wasm2.supply_conserved(ops, impl)
 
 
 def pred_c02(ops, impl):
@@ -404,10 +405,19 @@ def pred_c04(ops, impl):
         if want:
             if not evs or evs[0][0] != want or not evs[0][1] or evs[0][1][0][0] != "_contract_address":
                 return "op %d: first event must be `%s` carrying the contract address, got %s" % (n, want, parts[1][:120])
-    return None
+    import pred_wasm2
+    return pred_wasm2.data_rule(ops, impl)
 
 
 def pred_c05(ops, impl):
+    r = _pred_c05_trace(ops, impl)
+    if r:
+        return r
+    import pred_wasm2
+    return pred_wasm2.funds_visible(ops, impl)
+
+
+def _pred_c05_trace(ops, impl):
     b = binds_of(ops)
     blocks = {}
     app = "1"
@@ -688,6 +698,15 @@ def pred_c19(ops, impl):
         if a != c:
             return "the same history on two fresh instances diverges at its op %d `%s`: %s vs %s (second instance interleaved with another App)" % (
                 k, texts["1"][k][:120], a[:120], c[:120])
+    return None
+
+
+def pred_c19_mix(ops, impl):
+    """slice wasm-bech-mix: the harness itself compares the run in a fresh thread with the run made after Apps of the other
+    bech32 variant (same prefix) were used in the same thread, and reports the first differing op on the `nondet` line"""
+    for op, out in zip(ops, impl):
+        if op == "nondet" and out.startswith("!nondet"):
+            return "a history on fresh Apps gives another transcript once Apps of a different configuration ran in the same thread: " + out[:400]
     return None
 
 
